@@ -42,6 +42,8 @@ type BFS[O any] struct {
 	// Symmetry, when set, maps a state key to the canonical representative
 	// of its orbit (used only for optional symmetry reduction).
 	MaxStates int64
+	// Workers overrides the run's worker count (0 = use the run's).
+	Workers int
 }
 
 type bfsNode[O any] struct {
@@ -137,6 +139,9 @@ func (b *BFS[O]) Run(r *Run) BFSResult {
 			break
 		}
 		w := r.Workers
+		if b.Workers > 0 {
+			w = b.Workers
+		}
 		chunks := w * 8
 		if chunks > len(frontier) {
 			chunks = len(frontier)
